@@ -661,3 +661,49 @@ def c19d(F, R):
                     R.bad(f"{v}|{k}", f"{v}: {msg}", where)
             else:
                 R.bad(f"{v}|unextractable", f"UNEXTRACTABLE: {v}: {ex}", loc(arm))
+
+
+@rule("C19", "C19.g.indices-refer-to-the-listed-order", floor=2)
+def c19g(F, R):
+    """the dump names nodes by their position in the dumped list: the edges (`nexts`, `prevs`) and the function annotations (`func_entry`, `func_exit`) of a node are positions found by searching one enumeration of the graph, and the list itself is written in that same enumeration. Listing the nodes in another order (file by file, say) while the positions still come from the program order makes every index after the first difference point at the wrong entry - the dump reloads, as a different graph"""
+    wf = [q for q in F.fns if q.endswith("::from") and "test_wrapper::CfgWrapper as core::convert::From<&riscv_analysis::cfg::graph::Cfg>" in q]
+    nf = [q for q in F.fns if q.endswith("::from") and "test_wrapper::NodeWrapper" in q and "{closure" not in q]
+    if not wf or not nf:
+        raise Anchor("CfgWrapper::from / NodeWrapper::from not found")
+
+    def cfg_enums(g):
+        """calls of enumerating methods on a `Cfg` value in g (closures included): [(callee, node)]"""
+        out = []
+        for m in walk(g["hir"]["value"], pats=False):
+            if m.get("k") == "MethodCall" and not m["args"] and "cfg::graph::Cfg" in (recv_ty_(m) or "") and m["name"].startswith(("iter", "nodes", "into_iter")):
+                out.append((callee_of(m) or m["name"], m))
+        return out
+
+    def recv_ty_(m):
+        r = peel(m["recv"])
+        return r.get("ty") or r.get("aty") or ""
+    lst = cfg_enums(F.fn(wf[0]))
+    if len(lst) != 1:
+        R.bad("list|shape", f"UNEXTRACTABLE: CfgWrapper::from enumerates the graph {len(lst)} times", F.fn(wf[0])["sp"])
+        return
+    L = lst[0][0]
+    R.ok("list", detail=f"the node list is written in the order of `{short(L)}`", where=loc(lst[0][1]))
+    n = 0
+    for q in nf:
+        g = F.fn(q)
+        for c, m in cfg_enums(g):
+            # only enumerations that are searched for a position
+            from .p_parse import parent_map
+            pm = parent_map(g["hir"]["value"])
+            par = pm.get(id(m))
+            while par is not None and par.get("k") in ("DropTemps", "Use", "AddrOf"):
+                par = pm.get(id(par))
+            if not (par is not None and par.get("k") == "MethodCall" and par["name"] in ("position", "enumerate", "rposition")):
+                continue
+            n += 1
+            if c == L:
+                R.ok(f"index|{n}", detail=f"position in `{short(c)}`", where=loc(m))
+            else:
+                R.bad(f"index|{short(c)}", f"NodeWrapper::from finds positions in `{short(c)}`, the list is written in the order of `{short(L)}`: when the two orders differ (a program with an `.include` in the middle) the indices of edges and function annotations name other nodes than the ones they came from", loc(m))
+    if n == 0:
+        R.bad("index|shape", "UNEXTRACTABLE: no position search over the graph found in NodeWrapper::from", F.fn(nf[0])["sp"])
